@@ -36,6 +36,27 @@ def find_calls(fn, suffixes, method=None):
     return out
 
 
+def _leaves_fn(e):
+    """does this arm body end the function with `return ..` (directly or as the last statement of a block)?"""
+    while isinstance(e, dict) and e.get('k') == 'wrap':
+        e = e['e']
+    if not isinstance(e, dict):
+        return False
+    if e.get('k') == 'ret':
+        return True
+    if e.get('k') == 'block':
+        if e.get('expr') is not None:
+            return _leaves_fn(e['expr'])
+        if e.get('stmts'):
+            last = e['stmts'][-1]
+            return last.get('k') == 'stmt' and _leaves_fn(last['e'])
+    return False
+
+
+def a_guard_free(m):
+    return all(a_.get('guard') is None for a_ in m.get('arms', []))
+
+
 def consumption(fn, node):
     """How is the value of `node` consumed?  returns (kind, detail)
     kinds: propagated | panics | letelse | match | stored | field | dropped | returned | arg | cond | other"""
@@ -76,6 +97,17 @@ def consumption(fn, node):
                 return ('dropped', 'let _ =')
             return ('destructured', P.show_pat(P.pat_summary(pat)))
         if k == 'match' and role == 'scrut':
+            # `match r { Ok(v) => v, Err(e) => return Err(..) }` is `?` written out
+            err_arms = []
+            for a_ in parent.get('arms', []):
+                p_ = a_['pat']
+                while p_.get('k') in ('ref', 'guard') and 'pat' in p_:
+                    p_ = p_['pat']
+                path_ = (p_.get('res') or {}).get('path', '') if isinstance(p_.get('res'), dict) else ''
+                if path_.endswith(('::Err', '::None')) or (p_.get('k') in ('wild', 'bind') and len(parent.get('arms', [])) == 2 and a_ is parent['arms'][-1]):
+                    err_arms.append(a_)
+            if err_arms and all(_leaves_fn(a_['body']) for a_ in err_arms) and a_guard_free(parent):
+                return ('propagated', 'match with returning Err arm')
             return ('match', parent)
         if k == 'letx':
             return ('iflet', parent)
